@@ -507,12 +507,9 @@ impl<'a> Searcher<'a> {
                             .map(|(idx, i)| {
                                 let (a, b) = (&a.get(*i).unwrap().1, &b.get(*i).unwrap().1);
                                 let ordering = if numeric_columns[idx] {
-                                    // fractional aggregates (AVG) are numbers too; huge integers stay exact
-                                    a.parse::<f64>().unwrap_or(0.0).total_cmp(&b.parse::<f64>().unwrap_or(0.0))
-                                        .then_with(|| match (a.parse::<i64>(), b.parse::<i64>()) {
-                                            (Ok(a), Ok(b)) => a.cmp(&b),
-                                            _ => std::cmp::Ordering::Equal,
-                                        })
+                                    // as without GROUP BY: fractional aggregates (AVG) and sizes with a
+                                    // unit (`fsize`) are numbers too; huge integers stay exact
+                                    crate::util::cmp_numeric_texts(a, b)
                                 } else {
                                     a.cmp(b)
                                 };
